@@ -405,6 +405,16 @@ impl Prop for P {
                 }
                 run_eval::<VmFunction>("vm", &b, &roots, boxes, samples, cx)?;
                 run_eval::<JitFunction>("jit", &b, &roots, boxes, samples, cx)?;
+                // "no out-of-bounds access": once more with every heap array
+                // the evaluators own (outputs, choices, pointer tables,
+                // scratch lanes) bounded by PROT_NONE pages (galloc.rs); an
+                // access outside them kills the worker (crash:signal 11)
+                if samples.len() % 3 != 1 {
+                    crate::galloc::with_guard(samples.len() % 3 == 0, || {
+                        run_eval::<JitFunction>("jit", &b, &roots, boxes, samples, cx)
+                    })?;
+                    cx.ev.count("cases_repeated_with_guard_page_evaluator_arrays");
+                }
                 if special {
                     cx.ev.count("cases_with_infinite_or_nan_intermediate");
                     cx.ev.nontrivial(case);
